@@ -61,6 +61,7 @@ int main(int argc, char** argv) {
         perror("execve"); return 3;
     }
     signal(SIGPIPE, SIG_IGN);
+    simvfs_register();
     warmup();
     // 2. command loop; no heap allocation in the parent from here on
     size_t have = 0;
